@@ -11,7 +11,7 @@ if __name__=='__main__':
     jobs=[(c.key,'quick',i,c.shards) for c in REGISTRY.for_property(pid) for i in range(c.shards)]
     ctx=mp.get_context('spawn')
     t=time.time()
-    with ctx.Pool(16, initializer=driver._init_worker, initargs=(driver._PROTO, driver.TREE)) as pool:
+    with ctx.Pool(16, initializer=driver._init_worker, initargs=(driver._PROTO, driver.TREE, ["@undersized-tables","rejected-statement-leaves-no-trace"])) as pool:
         print('pool up', time.time()-t)
         for r in pool.imap_unordered(driver._worker, jobs, chunksize=1):
             print(round(time.time()-t,2), r['key'], round(r['wall'],2), r.get('error','')[:300])
